@@ -31,6 +31,40 @@ PROPS = {
             "Duration::from_secs_f64 over the reals modelled as rounding to the nearest nanosecond",
         ],
     },
+    "C13": {
+        "suites": [{"name": "fxb", "quick": 1500, "thorough": 40000}],
+        "level_text": "(delay + reverb half) Lean theorems about the models of effect/delay.rs and effect/reverb.rs (+comb.rs, "
+                      "all_pass.rs) over the reals, for all inputs, parameters, line lengths and partitions: dry mix is the identity, "
+                      "silence stays silent, chunk-free (the delay's sub-chunking by the line length equals the per-frame delay line; "
+                      "with an abstract feedback-effect chain), linearity in (state, input), geometric bounds for the comb / all-pass "
+                      "lines, no fault at >= 196 Hz; the same definitions run as a Float twin and agree bit-for-bit with kira's "
+                      "DelayBuilder / ReverbBuilder effects on every generated op",
+        "level_note": "theorems over ideal real arithmetic; chunk-freeness needs stagnant parameters (a tweening parameter is "
+                      "interpolated per process call in kira: covered by the bit-exact correspondence only); nested feedback effects are "
+                      "abstract in the theorems and probe effects (gain / one-pole) in the correspondence; long-run finiteness of the full "
+                      "reverb is bounded by theorem only per line, and exercised by the finite_output oracle",
+        "assumptions": [
+            "delay line of at least one frame (delay_time >= 1/fs): the excluded point panics in kira (known finding)",
+            "process slices no longer than the internal buffer size (as the mixer guarantees)",
+            "reverb sample rate >= 196 Hz (every line has a slot); C13's range is 8 kHz..192 kHz",
+            "feedback effects keep the slice length and are themselves chunk-free (and linear, for the linearity theorems)",
+        ],
+    },
+    "C14": {
+        "suites": [{"name": "fxb", "quick": 1500, "thorough": 40000}],
+        "level_text": "(delay + reverb half) Lean theorems over the reals: the delay's impulse response is an echo at every multiple "
+                      "of L = floor(delay*fs) frames with amplitude fb^k shaped k times by the feedback chain and zero elsewhere; the "
+                      "reverb model is the Freeverb network (8 parallel combs + 4 series all-passes per channel, sizes "
+                      "floor(c*fs/44100), spread 23, gain 0.015, all-pass feedback 0.5) with the constants re-extracted from the Rust "
+                      "source into Gen.lean on every run; the comb's impulse response decays geometrically for feedback < 1; Float "
+                      "twin bit-exact against kira on every generated op",
+        "level_note": "theorems over ideal real arithmetic (the f64 rounding of delay*fs at exact frame boundaries is a known finding); "
+                      "conformance of the model to the cited Freeverb code is by the stated equalities and by inspection",
+        "assumptions": [
+            "stagnant feedback / mix parameters for the echo theorem",
+            "0 <= feedback < 1 and 0 <= damping <= 1 for the decay bound",
+        ],
+    },
     "C19": {
         "suites": [{"name": "units", "quick": 3000, "thorough": 150000}],
         "level_text": "Lean theorems (monotone/exact decibel law, equal-power pan law, octave law, clock-speed unit "
